@@ -601,6 +601,11 @@ pub fn pred_c11(s: &Session) -> String {
                     Obs::End => return "FAIL:clean end after abort".into(),
                     Obs::Data(_) => {}
                     Obs::Eos(true) => return "FAIL:is_end_stream while the abort error is pending".into(),
+                    // "exactly 0 bytes left" is the same claim in the other method: a consumer
+                    // that frames the response from it (hyper does) never polls for the error
+                    Obs::Hint(0, Some(0)) => {
+                        return "FAIL:size_hint says exactly 0 bytes are left while the abort error is pending".into()
+                    }
                     _ => {}
                 }
                 if st.tok == "X" {
@@ -853,9 +858,32 @@ pub fn c08(em: &mut Emit, thorough: bool, seed: u64) {
             }
         }
     }
+    // a stalled reader: hundreds of small flushed writes with nobody polling, then the drain
+    for cap in [4usize, 64, 4096] {
+        for n in [255usize, 256, 257, 600] {
+            let mut ops = vec![];
+            for i in 0..n {
+                ops.push(Op::WriteAll(vec![b'a' + (i % 26) as u8, b'0' + (i % 10) as u8]));
+                ops.push(Op::Flush);
+                if i == n / 2 {
+                    ops.push(Op::Hint);
+                }
+            }
+            finish(&mut ops, 2);
+            let s = run_ops(cap, 0, &ops);
+            emit(em, &s, pred_c08(&s), format!("stalled:{}:{}", cap, n));
+        }
+    }
     let n = if thorough { 60_000 } else { 3_000 };
     for _ in 0..n {
-        let cap = if rng.chance(1, 25) { *rng.pick(&[4096usize, 65536]) } else { *rng.pick(&[1usize, 2, 3, 4, 7]) };
+        // mostly tiny chunk sizes (every boundary is hit often), some in the middle, few large
+        let cap = if rng.chance(1, 25) {
+            *rng.pick(&[4096usize, 65536, 65537])
+        } else if rng.chance(1, 8) {
+            *rng.pick(&[8usize, 9, 15, 16, 17, 31, 63, 64, 65, 100, 255, 256, 257, 1000, 1023, 4095, 4097])
+        } else {
+            *rng.pick(&[1usize, 2, 3, 4, 7])
+        };
         let len = 1 + rng.usize(if cap > 100 { 6 } else { 60 });
         let mut ops = random_history(&mut rng, cap, len, false, false);
         finish(&mut ops, 2);
@@ -868,23 +896,47 @@ pub fn c08(em: &mut Emit, thorough: bool, seed: u64) {
 /// Python's zlib from the `AUX gz` records.
 pub fn c09(em: &mut Emit, thorough: bool, seed: u64) {
     let mut rng = Rng::new(seed ^ 0xC09);
+    // a stalled reader: hundreds of small flushed writes with nobody polling, then the drain
+    for (cap, level) in [(4096usize, 6u32), (64, 1), (7, 9)] {
+        for n in [256usize, 300, 600] {
+            let mut s = Session::new(cap, level).expect("build");
+            let mut written = vec![];
+            for i in 0..n {
+                let bs = vec![b'a' + (i % 26) as u8, b'0' + (i % 10) as u8, b'\n'];
+                written.extend_from_slice(&bs);
+                s.apply(&Op::WriteAll(bs));
+                s.apply(&Op::Flush);
+            }
+            s.apply(&Op::Hint);
+            s.apply(&Op::DropWriter);
+            s.apply(&Op::PollUntilPending(1));
+            s.apply(&Op::Eos);
+            s.apply(&Op::Poll(1));
+            let frames: Vec<u8> = s.steps.iter().filter_map(|st| if let Obs::Data(d) = &st.obs { Some(d.clone()) } else { None }).flatten().collect();
+            let ok = !s.panicked
+                && s.steps.iter().any(|st| st.obs == Obs::End)
+                && crate::suites_neg::gunzip_ok(&frames, &written);
+            let p = pred(ok, || "after many flushes with a stalled reader the body is not one gzip member of the bytes written".into());
+            emit(em, &s, p, format!("stalled:{}:{}", cap, n));
+        }
+    }
     let n = if thorough { 8_000 } else { 1_200 };
     for i in 0..n {
-        let cap = *rng.pick(&[1usize, 2, 3, 7, 64, 4096, 65536]);
+        let cap = *rng.pick(&[1usize, 2, 3, 7, 8, 9, 63, 64, 65, 255, 1000, 4095, 4096, 4097, 65536, 65537]);
         let level = 1 + (i as u32 % 9);
-        let len = rng.usize(if cap < 8 { 8 } else { 14 });
+        let len = rng.usize(if cap < 256 { 8 } else { 14 });
         let kind = rng.next();
         let sizes = [0usize, 1, 5, 100, 1000, 70_000];
         let mut ops = vec![];
         for _ in 0..len {
             let sz = *rng.pick(&sizes);
-            let sz = if cap < 8 { sz.min(1000) } else { sz };
+            let sz = if cap < 256 { sz.min(1000) } else { sz };
             ops.push(match rng.below(8) {
                 0 | 1 => Op::WriteAll(payload(&mut rng, sz, kind)),
                 2 => Op::WriteAllReal(payload(&mut rng, sz, kind)),
                 3 => {
                     let k = 2 + rng.usize(2);
-                    Op::WriteV((0..k).map(|_| { let sz = *rng.pick(&sizes); let sz = if cap < 8 { sz.min(1000) } else { sz }; payload(&mut rng, sz, kind) }).collect())
+                    Op::WriteV((0..k).map(|_| { let sz = *rng.pick(&sizes); let sz = if cap < 256 { sz.min(1000) } else { sz }; payload(&mut rng, sz, kind) }).collect())
                 }
                 4 => Op::Write(payload(&mut rng, sz, kind)),
                 5 | 6 => Op::Flush,
@@ -1027,6 +1079,21 @@ pub fn c11(em: &mut Emit, thorough: bool, seed: u64) {
         ops.push(Op::DropWriter);
         let s = run_ops(4, 0, &ops);
         emit(em, &s, pred_c11(&s), "corpus".into());
+    }
+    // what the body says about itself between an abort and the delivery of its error
+    for level in [0u32, 6] {
+        for prefix in 0..4 {
+            let mut ops = vec![];
+            match prefix {
+                1 => ops.push(Op::Poll(1)),
+                2 => { ops.push(Op::WriteAll(b"abcdefgh".to_vec())); ops.push(Op::Flush); ops.push(Op::Poll(1)); }
+                3 => { ops.push(Op::WriteAll(b"ab".to_vec())); }
+                _ => {}
+            }
+            ops.extend([Op::Abort, Op::Hint, Op::Eos, Op::Hint, Op::PollUntilPending(1), Op::Hint, Op::Eos, Op::Poll(1), Op::DropWriter, Op::Poll(1)]);
+            let s = run_ops(4, level, &ops);
+            emit(em, &s, pred_c11(&s), format!("abort-then-hint:{}:{}", level, prefix));
+        }
     }
     // abort / body drop inserted at every position of short exhaustive histories
     let depth = if thorough { 4 } else { 3 };
